@@ -62,6 +62,10 @@ func ExecEq(op M) (res any) {
 	if name == "flatRef" {
 		r = RefOf(op["r"])
 	}
+	var x, y *sbom.Node
+	if _, ok := op["x"]; ok && name == "equalRaw" {
+		x, y = NodeOf(op["x"]), NodeOf(op["y"])
+	}
 	converted = true
 	switch name {
 	case "flatNode":
@@ -89,15 +93,14 @@ func ExecEq(op M) (res any) {
 	case "equalAfterEdit":
 		// equality and checksum are functions of the current value: a caller that holds the pointer
 		// and assigns fields between two comparisons gets the answer for the new value
-		ref := NodeOf(op["n"])
+		ref, fresh := NodeOf(op["n"]), NodeOf(op["m"]) // built a second time, not copied: the library's Copy is not trusted here
 		before := n.Equal(ref)
 		sumBefore := n.Checksum() == ref.Checksum()
 		overwriteNode(n, m)
-		fresh := NodeOf(op["m"])
 		return M{"before": before, "sumBefore": sumBefore, "afterVsOld": n.Equal(ref), "afterVsNew": n.Equal(fresh),
 			"sumAfter": n.Checksum() == fresh.Checksum(), "fresh": fresh.Equal(ref)}
 	case "equalNLAfterEdit":
-		ref := NLOf(op["a"])
+		ref, fresh := NLOf(op["a"]), NLOf(op["b"])
 		before := a.Equal(ref)
 		if len(a.Nodes) == len(b.Nodes) {
 			for i := range a.Nodes {
@@ -107,18 +110,17 @@ func ExecEq(op M) (res any) {
 			a.Nodes = b.Nodes
 		}
 		a.Edges, a.RootElements = b.Edges, b.RootElements
-		fresh := NLOf(op["b"])
 		return M{"before": before, "afterVsOld": a.Equal(ref), "afterVsNew": a.Equal(fresh), "fresh": fresh.Equal(ref)}
 	case "equalRaw":
 		// text that is not valid UTF-8 is still text the operands differ or agree in
 		suffix := []string{"", "\xff\xfe", "\xff\xfd", "\xc3"}
 		n.Name += suffix[asInt(op["sn"])%4]
 		m.Name += suffix[asInt(op["sm"])%4]
-		if _, ok := op["x"]; !ok {
+		if x == nil {
 			return M{"eq": n.Equal(m), "sum": n.Checksum() == m.Checksum()}
 		}
-		la := &sbom.NodeList{Nodes: []*sbom.Node{n, NodeOf(op["x"])}, RootElements: []string{n.Id}}
-		lb := &sbom.NodeList{Nodes: []*sbom.Node{m, NodeOf(op["y"])}, RootElements: []string{m.Id}}
+		la := &sbom.NodeList{Nodes: []*sbom.Node{n, x}, RootElements: []string{n.Id}}
+		lb := &sbom.NodeList{Nodes: []*sbom.Node{m, y}, RootElements: []string{m.Id}}
 		return M{"eq": la.Equal(lb), "sum": true}
 	}
 	return "unknown-op"
@@ -1062,7 +1064,37 @@ func diffGen(g *G, tier string) []M {
 			ops = append(ops, M{"op": "diff", "n": base, "m": other})
 			continue
 		}
-		switch g.Int(7) {
+		switch g.Int(8) {
+		case 7:
+			// a supplier / originator (or one of its contacts) that differs from its twin in white
+			// space only: a blank field against an absent one, a trailing or leading blank
+			at, _ := base["a"].(M)
+			if at == nil {
+				at = M{}
+				base["a"] = at
+			}
+			fld := g.Pick([]string{"Suppliers", "Originators"})
+			if len(asList(at[fld])) == 0 {
+				at[fld] = []any{g.Person(2)}
+			}
+			other = Normalize(base).(M)
+			l := asList(other["a"].(M)[fld])
+			p := l[g.Int(len(l))].(M)
+			if cs := asList(p["c"]); len(cs) > 0 && g.Chance(0.5) {
+				p = cs[g.Int(len(cs))].(M)
+			}
+			k := g.Pick([]string{"e", "u", "p", "n"})
+			switch cur := asStr(p[k]); {
+			case cur == "":
+				p[k] = g.Pick([]string{" ", "\t", "\u00a0"})
+			case g.Chance(0.5):
+				p[k] = cur + " "
+			default:
+				p[k] = " " + cur
+			}
+			if g.Chance(0.5) {
+				base, other = other, base
+			}
 		case 5:
 			// dates less than a second apart but in different seconds, and in the same second
 			other = Normalize(base).(M)
